@@ -37,7 +37,7 @@ META = {
     'components_stub': ['open() and os.path.getsize seen by the file-interception module (delegating proxies)', 'S3 bucket'],
     'budgets': {'quick': {'seconds': 25}, 'thorough': {'seconds': 300}},
     'required_probes': {'thorough': ['size_at_limit', 'size_limit_plus_1', 'size_limit_minus_1', 'content_is_placeholder', 'binary_all_bytes', 'empty_file',
-                                     'limit_from_environment', 'path_by_keyword', 'path_positional', 'read_fault', 'above_limit_not_opened', 'stale_file_at_replay_path', 'explicit_zero_limit', 'more_than_1MiB_below_limit', 'two_threads_one_handler', 'path_is_a_symbolic_link', 'read_fault_in_the_middle_of_the_file']},
+                                     'limit_from_environment', 'path_by_keyword', 'path_positional', 'read_fault', 'above_limit_not_opened', 'stale_file_at_replay_path', 'explicit_zero_limit', 'more_than_1MiB_below_limit', 'two_threads_one_handler', 'path_is_a_symbolic_link', 'read_fault_in_the_middle_of_the_file', 'same_path_again_same_length_same_mtime']},
 }
 
 
@@ -242,6 +242,7 @@ def _run(tape, clock, scratch, oproxy, osproxy):
     limit_bytes = (1 << 20) if big else tape.choice([1, 2, 7, 24, 100, 1000])
     by_keyword = bool(tape.draw(2))
     fault = tape.draw(8) == 7
+    twice = tape.draw(3) == 2          # the same paths are intercepted a second time with other bytes of the same length and the same mtime
     via_link = tape.draw(4) == 3       # the intercepted paths are symbolic links to the files (a blob cache, a "current" link)
     os.environ.pop('PLAYBACK_INTERCEPTED_FILE_SIZE_LIMIT', None)
     if limit_mode == 'arg':
@@ -278,6 +279,13 @@ def _run(tape, clock, scratch, oproxy, osproxy):
     run.probe('path_by_keyword' if by_keyword else 'path_positional')
     if via_link:
         run.probe('path_is_a_symbolic_link')
+    if big:
+        twice = False
+    if twice:
+        run.probe('same_path_again_same_length_same_mtime')
+    in_content2 = bytes(bytearray((b ^ 0x33) for b in in_content))
+    out_content2 = bytes(bytearray((b ^ 0x55) for b in out_content))
+    MTIME = 1577880000
     in_above = len(in_content) > limit_bytes
     out_above = len(out_content) > limit_bytes
     store = C.gen_store(tape, clock)
@@ -314,24 +322,38 @@ def _run(tape, clock, scratch, oproxy, osproxy):
                     else:
                         with builtins.open(p_out, 'wb') as f:
                             f.write(phase['out_content'])
+                    os.utime(p_out, (MTIME, MTIME))
                     if by_keyword:
                         self.store(file_path=p_out)
                     else:
                         self.store(p_out)
+                    if twice:
+                        got = self.fetch('key2', file_path=p_in) if by_keyword else self.fetch('key2', p_in)
+                        with builtins.open(got, 'rb') as f:
+                            seen['input_bytes2'] = f.read()
+                        with builtins.open(p_out, 'wb') as f:        # (through the link, if it is one)
+                            f.write(out_content2)
+                        os.utime(p_out, (MTIME, MTIME))
+                        if by_keyword:
+                            self.store(file_path=p_out)
+                        else:
+                            self.store(p_out)
                     return len(seen['input_bytes'])
 
                 @recorder.intercept_input('fetch', data_handler=in_handler, capture_args=[CapturedArg(1, 'key')])
                 def fetch(self, key, file_path):
                     seen['fetch_body_ran'] = True
+                    content = in_content if key == 'key1' else in_content2
                     if via_link:
                         with builtins.open(file_path + '.target', 'wb') as f:
-                            f.write(in_content)
+                            f.write(content)
                         if os.path.lexists(file_path):
                             os.remove(file_path)
                         os.symlink(file_path + '.target', file_path)
-                        return file_path
-                    with builtins.open(file_path, 'wb') as f:
-                        f.write(in_content)
+                    else:
+                        with builtins.open(file_path, 'wb') as f:
+                            f.write(content)
+                    os.utime(file_path, (MTIME, MTIME))
                     return file_path
 
                 @recorder.intercept_output('store', data_handler=out_handler)
@@ -357,6 +379,8 @@ def _run(tape, clock, scratch, oproxy, osproxy):
         oproxy.fail_after = None
         run.check(out.kind == 'return' and out.value == len(in_content) and seen.get('input_bytes') == in_content, 'service_unaffected', 'service-affected',
                   lambda: 'recording changed the service result: %r' % (out,))
+        if twice and not fault:
+            run.check(seen.get('input_bytes2') == in_content2, 'service_unaffected', 'service-affected', 'recording changed what the service read from the second file')
         rec_ids = [c[1] for c in spy.calls if c[0] == 'create']
         saved = any(c[0] == 'save' for c in spy.calls)
         read_opens = [o for o in oproxy.opens if 'r' in o[1]]
@@ -403,11 +427,16 @@ def _run(tape, clock, scratch, oproxy, osproxy):
                             os.path.basename(seen2.get('input_path', '?')), len(got or b''), (got or b'')[:20], len(exp_in), exp_in[:20], 'placeholder' if in_above else 'original'))
         run.check(os.path.basename(seen2.get('input_path', '')) == 'in-2.bin', 'input_file_restored', 'restored-at-wrong-path',
                   lambda: 'file restored at %s, the replayed call named in-2.bin' % seen2.get('input_path'))
+        if twice:
+            exp_in2 = PLACEHOLDER if in_above else in_content2
+            got2 = seen2.get('input_bytes2')
+            run.check(got2 == exp_in2, 'input_file_restored', 'input-bytes-differ:second-version-at-same-path',
+                      lambda: 'the path was fetched twice with different bytes of equal length and equal mtime; the second fetch was replayed as %r..., expected %r...' % ((got2 or b'')[:20], exp_in2[:20]))
         # output holders
         playback = pb.value
 
-        def holder_bytes(outputs):
-            vals = [o.value for o in outputs if o.key.startswith('output: store #1')]
+        def holder_bytes(outputs, n=1):
+            vals = [o.value for o in outputs if o.key.startswith('output: store #%d' % n)]
             if len(vals) != 1:
                 return None
             return out_handler2.restore_output_from_recording(vals[0]).file_content
@@ -417,6 +446,13 @@ def _run(tape, clock, scratch, oproxy, osproxy):
                   lambda: 'recorded output holder carries %r..., expected %r...' % ((rb or b'')[:20], exp_out[:20]))
         run.check(pbb == exp_out, 'output_holder_bytes', 'playback-holder-differs:%s' % ('above-limit' if out_above else label2),
                   lambda: 'replayed output holder carries %r..., expected %r...' % ((pbb or b'')[:20], exp_out[:20]))
+        if twice:
+            exp_out2 = PLACEHOLDER if out_above else out_content2
+            rb2, pbb2 = holder_bytes(playback.recorded_outputs, 2), holder_bytes(playback.playback_outputs, 2)
+            run.check(rb2 == exp_out2, 'output_holder_bytes', 'recorded-holder-differs:second-version-at-same-path',
+                      lambda: 'second output through the same path: recorded holder carries %r..., expected %r...' % ((rb2 or b'')[:20], exp_out2[:20]))
+            run.check(pbb2 == exp_out2, 'output_holder_bytes', 'playback-holder-differs:second-version-at-same-path',
+                      lambda: 'second output through the same path: replayed holder carries %r..., expected %r...' % ((pbb2 or b'')[:20], exp_out2[:20]))
         # to_file of the holder writes the same bytes
         vals = [o.value for o in playback.recorded_outputs if o.key.startswith('output: store #1')]
         if vals:
